@@ -24,7 +24,8 @@ import vlib
 
 PROPERTIES = ["C25"]
 SPEC = "Serializers"
-DEFECTS = ["MapOrderDispatch", "FirstMatchShadowsConcrete", "ProtoOverrideDropped", "NilKeyPanics", "TypeNameCollision"]
+DEFECTS = ["MapOrderDispatch", "FirstMatchShadowsConcrete", "ProtoOverrideDropped", "NilKeyPanics", "TypeNameCollision",
+           "EnvelopeCodecAmbiguity"]
 VALUE_DEFECTS = ["CBORTimePrecision"]
 
 # witnesses of the recorded findings and of the interesting precedence cases: always replayed, every seed
@@ -46,6 +47,10 @@ DIRECTED = [
     ("client", [("NIL", "U1")]),
     ("config", [("CE1", "CBOR"), ("CE2", "CBOR")]),                # colliding registry names
     ("config", [("CE2", "JSON"), ("CE1", "JSON")]),
+    ("client", [("CT", "JSON"), ("CI", "CBOR")]),                  # a primitive sent as CBOR while JSON is tried first on receive
+    ("client", [("CT", "CBOR"), ("CI", "JSON")]),                  # ... and the reverse
+    ("client", [("CI", "CBOR"), ("CT", "JSON")]),                  # right codec first: no ambiguity
+    ("config", [("CI", "CBOR"), ("IA", "JSON")]),
     ("config", [("CT", "Proto")]),                                 # a serializer that cannot encode the type: error, no bytes
 ]
 
@@ -184,7 +189,7 @@ def run(ctx, pid):
         "rule": "registration histories over keys {proto.Message, concrete proto type, concrete struct, interface A, interface B} x "
                 "serializers {CBOR, JSON, U1, U2}: every history of length <= %d through both APIs (TLC BFS), %d TLC random walks of "
                 "length 5 that add {nil key, two colliding type names, Proto}, %d directed witnesses; after each history both nodes are "
-                "built (config API: %d times, to sample map order) and 12 message kinds x seeded value classes are sent; "
+                "built (config API: %d times, to sample map order) and 13 message kinds x seeded value classes are sent; "
                 "non-trivial = at least two distinct keys registered" % (2 if quick else 3, len(sim), len(directed), rounds),
         "exhaustive": True,
         "exhaustive_histories": len(exh), "random_histories": len(sim), "directed_histories": len(directed),
@@ -196,7 +201,8 @@ def run(ctx, pid):
         "structure only: the spec decides registration / dispatch / envelope agreement; value fidelity of protobuf, CBOR and JSON "
         "is SAMPLED (per kind: zero, plain (seeded), empty-vs-nil containers, extremes, nanosecond time), not proved",
         "CBOR vs JSON payload disjointness (they share the frame layout and the types registry) is an assumption of the spec, "
-        "checked only on the sampled values (struct messages); single-digit primitive messages are outside the domain",
+        "checked on the sampled values: it holds for struct messages and fails for primitive messages (kind mInt, finding "
+        "EnvelopeCodecAmbiguity); other primitive types are outside the domain",
         "sender and receiver clients are built independently from the same configuration but live in one process "
         "(they share the process-global types registry, as two nodes running the same binary would after the same registrations)",
         "the send path is client.Serializer(m).Serialize(m) and the receive path client.Serializer(nil).Deserialize(b): the calls the "
